@@ -163,6 +163,62 @@ theorem onLexeme_safe (c : Core) (l : Lexeme) (hl : WFLex c.current.env.size l) 
                    Or.inl ‹l.ty = LexType.ContextExplicitClosing›⟩
                exact key _ (by assumption) _ _)
 
+/-- a crash of `core.next` is a dereference of a nil `currentDirective` by a lexeme that needs one -/
+theorem onLexeme_panic_cur (c : Core) (l : Lexeme) (hl : WFLex c.current.env.size l) (site : String)
+    (h : c.onLexeme l = .error (.panic site)) : c.cur = none ∧ phNeeds l.ty = true := by
+  have hv : ∀ c1 : Core, c1.current = c.current → ∃ v, lexBytes c1.current l = some v := by
+    intro c1 h1
+    rw [h1]
+    exact lexValue_wf c.current.env l hl
+  unfold Core.onLexeme at h
+  split at h
+  · -- Keyword
+    split at h
+    · rename_i f hp
+      unfold Core.processCurrent at hp
+      repeat' split at hp
+      all_goals first | (cases hp; done) | (cases hp; cases h)
+    · rename_i c1 hp
+      obtain ⟨v, hv1⟩ := hv c1 (processCurrent_scans c c1 hp).1
+      simp only [hv1] at h
+      repeat' split at h
+      all_goals cases h
+  · rename_i hty
+    split at h
+    · rename_i hcur
+      exact ⟨hcur, by rw [hty]; rfl⟩
+    · obtain ⟨v, hv1⟩ := hv c rfl
+      simp only [hv1] at h
+      repeat' split at h
+      all_goals cases h
+  · rename_i hty
+    split at h
+    · rename_i hcur
+      exact ⟨hcur, by rw [hty]; rfl⟩
+    · obtain ⟨v, hv1⟩ := hv c rfl
+      simp only [hv1] at h
+      cases h
+  · rename_i hty
+    split at h
+    · rename_i hcur; exact ⟨hcur, by rw [hty]; rfl⟩
+    · cases h
+  · rename_i hty
+    split at h
+    · rename_i hcur; exact ⟨hcur, by rw [hty]; rfl⟩
+    · cases h
+  · rename_i hty
+    split at h
+    · rename_i hcur; exact ⟨hcur, by rw [hty]; rfl⟩
+    · cases h
+  · rename_i hty
+    split at h
+    · rename_i hcur; exact ⟨hcur, by rw [hty]; rfl⟩
+    · cases h
+  all_goals (repeat' split at h)
+  all_goals first | (cases h; done) | skip
+  all_goals (rename_i hp; unfold Core.processCurrent at hp; repeat' split at hp)
+  all_goals first | (cases hp; done) | (cases hp; cases h)
+
 include ht hroot in
 /-- processInclude: reads the file name with one more call of `Next`, then switches to the new file -/
 theorem processInclude_safe (c : Core) (fsys : FileSys) (kw : Lexeme) (hJ : ScansGood reachAt c) :
@@ -326,6 +382,139 @@ theorem run_safe (fsys : FileSys) (n : Nat) : ∀ (c : Core), ScansGood reachAt 
               exact hmem p (by rw [hsus]; exact List.mem_cons_of_mem _ hp)
             · intro _
               exact Or.inr rfl
+
+theorem processCurrent_not_fuel (c : Core) : c.processCurrent ≠ .error .fuel := by
+  intro h
+  unfold Core.processCurrent at h
+  repeat' split at h
+  all_goals cases h
+
+theorem onEOF_not_fuel (c : Core) : c.onEOF ≠ .error .fuel := by
+  intro h
+  unfold Core.onEOF at h
+  repeat' split at h
+  all_goals first
+    | (cases h; done)
+    | (cases h; exact processCurrent_not_fuel _ ‹_›)
+
+theorem onLexeme_not_fuel (c : Core) (l : Lexeme) : c.onLexeme l ≠ .error .fuel := by
+  intro h
+  unfold Core.onLexeme at h
+  repeat' split at h
+  all_goals first
+    | (cases h; done)
+    | (cases h; exact processCurrent_not_fuel _ ‹_›)
+
+theorem processInclude_not_fuel (c : Core) (fsys : FileSys) (kw : Lexeme) : c.processInclude fsys kw ≠ .error .fuel := by
+  intro h
+  simp only [Core.processInclude] at h
+  repeat' split at h
+  all_goals first
+    | (cases h; done)
+    | (rename_i f _; cases f <;> simp only [scanFault] at h <;> cases h)
+
+/-- a file system in which no INCLUDE can succeed (no regular file at any path): a single-file project -/
+def NoFiles (fsys : FileSys) : Prop := ∀ p content lenAt, fsys p ≠ .found (.file content lenAt)
+
+theorem processInclude_nofiles (c c' : Core) (fsys : FileSys) (kw : Lexeme) (hfs : NoFiles fsys) :
+    c.processInclude fsys kw ≠ .ok c' := by
+  intro h
+  simp only [Core.processInclude] at h
+  repeat' split at h
+  all_goals first
+    | (cases h; done)
+    | (rename_i hfound; exact hfs _ _ _ hfound)
+    | (rename_i hfound _; exact hfs _ _ _ hfound)
+
+/-- outcome without crash and without exhausted fuel -/
+def Total : Except PFault Core → Prop
+  | .ok _ => True
+  | .error (.err _) => True
+  | .error (.panic _) => False
+  | .error .fuel => False
+
+include ht hroot in
+/-- **single-file projects: the scanning stage is total.**  If no INCLUDE can succeed, the core's scanning
+    loop, given more fuel than the call potential of the file, ends with the forest or with a located error
+    value: no crash site at all (the residual processBody site needs a resume after an INCLUDE) and no
+    exhausted fuel. -/
+theorem run_total_single (fsys : FileSys) (hfs : NoFiles fsys) (n : Nat) : ∀ (c : Core) (B : Nat),
+    GoodP c.current.env reachAt (4 * c.current.env.size + 11) B c.current.sc → c.suspended = [] → c.resumed = false →
+    (c.current.sc.ph = true → c.cur ≠ none) → B < n → Total (Core.run fsys n c) := by
+  induction n with
+  | zero => intro c B _ _ _ _ hb; omega
+  | succ n ih =>
+    intro c B hP hsus hres hcur hb
+    have h1 := next_sound c.current.env Gen.prog inputs reachAt ht (scanFuel c.current.env) c.current.sc hP.good
+    have h2 := next_prog c.current.env Gen.prog inputs reachAt ht (scanFuel c.current.env) (4 * c.current.env.size + 11) B
+      c.current.sc hP (by simp only [scanFuel]; omega)
+    simp only [Core.run]
+    revert h1 h2
+    cases hnx : next c.current.env Gen.prog (scanFuel c.current.env) c.current.sc with
+    | error f =>
+      intro h1 h2
+      cases f with
+      | err m i => simp [scanFault, Total]
+      | panic s => exact absurd trivial h1
+      | fuel => exact absurd rfl h2
+    | ok r =>
+      obtain ⟨lex, sc'⟩ := r
+      cases lex with
+      | none =>
+        intro _ _
+        dsimp only
+        cases he : Core.onEOF _ with
+        | error f =>
+          dsimp only
+          cases f with
+          | err e => trivial
+          | panic s => exact absurd he (onEOF_not_panic _ s)
+          | fuel => exact absurd he (onEOF_not_fuel _)
+        | ok c2 =>
+          dsimp only
+          have hs2 := (onEOF_scans _ c2 he).2
+          have : c2.suspended = [] := by rw [hs2]; exact hsus
+          rw [this]
+          trivial
+      | some l =>
+        rintro ⟨hg', hwf, _⟩ ⟨B', hB', hP'⟩
+        obtain ⟨hl, hneed, hph1⟩ := hwf l rfl
+        dsimp only
+        simp only [hres, Bool.false_eq_true, if_false]
+        split
+        · -- INCLUDE: cannot succeed
+          cases hinc : Core.processInclude _ fsys l with
+          | ok c1 => exact absurd hinc (processInclude_nofiles _ c1 fsys l hfs)
+          | error f =>
+            dsimp only
+            cases f with
+            | err e => trivial
+            | panic s =>
+              have hsg : ScansGood reachAt ({ ({ c with current := { c.current with sc := sc' } } : Core) with resumed := false }) :=
+                ⟨⟨B', hP'⟩, by intro p hp; rw [hsus] at hp; cases hp⟩
+              exact absurd hinc ((processInclude_safe inputs reachAt ht hroot _ fsys l hsg).1 s)
+            | fuel => exact absurd hinc (processInclude_not_fuel _ fsys l)
+        · cases hon : Core.onLexeme _ l with
+          | error f =>
+            dsimp only
+            cases f with
+            | err e => trivial
+            | panic s =>
+              obtain ⟨hcn, hpn⟩ := onLexeme_panic_cur _ l (by exact hl) s hon
+              exact absurd hcn (hcur (hneed hpn))
+            | fuel => exact absurd hon (onLexeme_not_fuel _ l)
+          | ok c1 =>
+            dsimp only
+            obtain ⟨hs1, hs2, hs3, hs4⟩ := (onLexeme_safe _ l (by exact hl)).2 c1 hon
+            refine ih c1 B' ?_ (by rw [hs2]; exact hsus) (by rw [hs3]) ?_ (by omega)
+            · rw [hs1]; exact hP'
+            · intro hp
+              rw [hs1] at hp
+              have hp' : sc'.ph = true := hp
+              rcases hs4 with hty | hc
+              · rw [hph1, hty] at hp'
+                simp [phAfter] at hp'
+              · exact hc
 
 end
 
